@@ -96,6 +96,9 @@ def oracle(c, o, io_):
             return "[hang] the process has ended and every thread kept running for %d fair rounds, yet run() has not returned" % fair_bound(c)
         if o["alive"]:
             return "[leftover-thread] run() returned but I/O workers are still alive: %s" % o["alive"]
+        if o.get("alive_at_return") and io_["outcome"] != "raise:ThreadException":
+            return "[leftover-thread] at the moment run() returned (%s) I/O workers had not finished yet: %s" % (
+                io_["outcome"], o["alive_at_return"])
         if o["timer_state"] == "armed":
             return "[leftover-timer] run() returned but the timeout timer is still armed"
         if c["start_fails"] and io_["outcome"] != "raise:StartFailed":
